@@ -302,6 +302,9 @@ def replay_case(case):
     return [Problem(sig, case, t) for sig, t in p]
 
 
+LEVEL_CAP = 40000
+
+
 def run(ctx):
     tier = ctx.tier
     full_depth = 2 if tier == "quick" else 3
@@ -333,7 +336,12 @@ def run(ctx):
                     if tier == "quick" and e[0] == "compute" and (e[3] or not e[2]):
                         continue  # quick: at the last level only the plain compute variant
                 items.append(h + [list(e)])
-        results = ctx.pmap(step, perm(items, ctx.seed), chunksize=8)
+        items = perm(items, ctx.seed)
+        if len(items) > LEVEL_CAP:
+            # a level larger than the cap is cut to an evenly spread (seed-permuted) sub-sample, and the cut is reported
+            ctx.capped = f"history level {depth}: {LEVEL_CAP} of {len(items)} one-event extensions replayed (cap per level)"
+            items = items[:LEVEL_CAP]
+        results = ctx.pmap(step, items, chunksize=8)
         nxt = []
         for hist, c, p, nev in sorted(results, key=lambda r: (len(r[0]), str(r[0]))):
             if c is None:
